@@ -34,6 +34,23 @@ def shift(g, d):
     return {"type": t, "coordinates": c2}
 
 
+def simple_geom(rng, typ, **kw):
+    """a valid geometry that does not intersect itself (the quantifier of C06): decided by shapely"""
+    import shapely
+
+    for _ in range(200):
+        g = G.rgeom(rng, typ, **kw)
+        if g["type"] == "LineString":
+            ok = shapely.LineString([[float(a), float(b)] for a, b in g["coordinates"]]).is_simple
+        elif g["type"] == "MultiLineString":
+            ok = shapely.MultiLineString([[[float(a), float(b)] for a, b in l] for l in g["coordinates"]]).is_simple
+        else:
+            ok = True
+        if ok:
+            return g
+    return g
+
+
 class C06(Prop):
     ID = "C06"
     IMPORTS = ["Eval.Affinity"]
@@ -51,15 +68,15 @@ class C06(Prop):
 
     def _case(self, rng, t1, t2):
         mode = rng.choice(["cluster", "cluster", "same", "disjoint", "spread"])
-        tb = rng.choice([Fraction(1, 64), Fraction(1, 8), Fraction(1, 2), Fraction(1)])
-        fb = rng.choice([Fraction(1), Fraction(4), Fraction(16), Fraction(128)])
-        g1 = G.rgeom(rng, t1, tmax=6, fmax=24) if mode != "spread" else G.rgeom(rng, t1)
+        tb = rng.choice([Fraction(1, 64), Fraction(1, 8), Fraction(1, 2), Fraction(1), Fraction(2), Fraction(5)])
+        fb = rng.choice([Fraction(1), Fraction(4), Fraction(16), Fraction(128), Fraction(2000)])
+        g1 = simple_geom(rng, t1, tmax=6, fmax=24) if mode != "spread" else simple_geom(rng, t1)
         if mode == "same" and t1 == t2:
             g2 = copy.deepcopy(g1)
         elif mode == "disjoint":
-            g2 = shift(G.rgeom(rng, t2, tmax=6, fmax=24), Fraction(rng.randint(12, 20)))
+            g2 = shift(simple_geom(rng, t2, tmax=6, fmax=24), Fraction(rng.randint(12, 20)))
         else:
-            g2 = G.rgeom(rng, t2, tmax=6, fmax=24) if mode != "spread" else G.rgeom(rng, t2)
+            g2 = simple_geom(rng, t2, tmax=6, fmax=24) if mode != "spread" else simple_geom(rng, t2)
         d = Fraction(rng.randint(1, 40), 4)
         return {"kind": mode, "g1": g1, "g2": g2, "tb": tb, "fb": fb, "d": d, "defaults": rng.random() < 0.15}
 
@@ -178,6 +195,26 @@ class C06(Prop):
             if vs is None or vs > 1 or vs < 1 - TOL:
                 fail("self-affinity", f"affinity of a {t1} with itself is {None if vs is None else float(vs)!r}, expected exactly 1 (never more)",
                      over_one=bool(vs is not None and vs > 1))
+        # the buffered time extent itself, read off the coordinates: [max(tmin - tb, 0), tmax + tb] for the five buffered
+        # types (exact for stamps and points, whose round caps have axis-aligned vertices; within 2% of the buffer for
+        # lines, whose polygonal caps follow the line direction), the unbuffered extent otherwise
+        for which, g, ext in (("first", o["n1"], o["ext1"]), ("second", o["n2"], o["ext2"])):
+            bs, _, be, _ = G.bounds_exact(g)
+            if g["type"] in BUFFERED:
+                tb = o["tb"]
+                want_s, want_e = max(bs - tb, Fraction(0)), be + tb
+                slack = TOL * max(1, abs(want_e)) if g["type"] in ("TimeStamp", "Point", "MultiPoint") else tb / 50
+            else:
+                want_s, want_e, slack = bs, be, Fraction(0)
+            if g["type"] in ("LineString", "MultiLineString"):
+                # mitre joins at interior vertices may reach further (up to about the mitre limit: 6 buffers allowed), never less
+                tb = o["tb"]
+                bad = ext[0] > want_s + slack or ext[1] < want_e - slack or ext[1] > be + 6 * tb + slack or ext[0] < max(bs - 6 * tb - slack, Fraction(0))
+            else:
+                bad = abs(ext[0] - want_s) > slack or abs(ext[1] - want_e) > slack
+            if bad:
+                fail("prepared-extent", f"{which} geometry ({g['type']}) buffered by {float(o['tb'])} s spans [{float(ext[0])}, {float(ext[1])}] "
+                                        f"instead of [{float(want_s)}, {float(want_e)}]", geom_type=g["type"])
         # disjoint in time => 0
         (s1, e1), (s2, e2) = o["ext1"], o["ext2"]
         if e1 < s2 or e2 < s1:
